@@ -270,8 +270,12 @@ pub fn explore(run: &RdRun, init: Box<dyn Rd>) -> Outcome {
             let mut r2 = rd.fork();
             let obs = r2.apply(op);
             out.cov.transitions += 1;
-            out.cov.observe(op.class(), fnv(format!("{:?}", obs).as_bytes()));
             let mut verdict = judge(&exp, &obs, pos);
+            // an observation = what the call returned and where it left the stream
+            out.cov.observe(op.class(), fnv(format!("{:?}{:?}", obs, verdict.as_ref().ok()).as_bytes()));
+            if depth >= 1 {
+                out.cov.nontrivial += 1;
+            }
             // position / counter oracles
             if let Ok(Some(np)) = verdict {
                 if let Some(bp) = r2.bit_pos() {
